@@ -170,7 +170,9 @@ def lake(args, timeout=1800):
 
 
 def lean_run_file(path, timeout=1200):
-    return sh(["lake", "env", "lean", path], cwd=LEAN, timeout=timeout)
+    # under the project lock: a concurrent `lake build` of another check may be replacing the .olean files this reads
+    with Lock("lean"):
+        return sh(["lake", "env", "lean", path], cwd=LEAN, timeout=timeout)
 
 
 def model_exe(name):
